@@ -925,6 +925,16 @@ func (s *Scope) evalCall(e *Expr) *Val {
 	if len(e.Args) >= 1 {
 		if recv := s.eval(e.Args[0]); recv != nil && recv.Ty != nil {
 			key := shortTypeName(recv.Ty) + "." + e.Name
+			if !c.W.externPure[key] {
+				// static method of a named (pointer) type: "pkg.(*T).Name" / "pkg.(T).Name"
+				if p, ok := recv.Ty.(*types.Pointer); ok {
+					if nt, ok := p.Elem().(*types.Named); ok && nt.Obj().Pkg() != nil {
+						key = shortPkg(nt.Obj().Pkg().Path()) + ".(*" + nt.Obj().Name() + ")." + e.Name
+					}
+				} else if nt, ok := recv.Ty.(*types.Named); ok && nt.Obj().Pkg() != nil {
+					key = shortPkg(nt.Obj().Pkg().Path()) + ".(" + nt.Obj().Name() + ")." + e.Name
+				}
+			}
 			if c.W.externPure[key] {
 				var rest []*Val
 				for i := 1; i < len(e.Args); i++ {
@@ -936,6 +946,11 @@ func (s *Scope) evalCall(e *Expr) *Val {
 						if it.Method(i).Name() == e.Name {
 							rt = resultTypeOfSig(it.Method(i).Type().(*types.Signature))
 						}
+					}
+				}
+				if rt == nil && s.pkg != nil {
+					if fn := c.W.prog.LookupMethod(recv.Ty, s.pkg.Pkg, e.Name); fn != nil {
+						rt = resultTypeOfSig(fn.Signature)
 					}
 				}
 				if r := c.pureExtern(key, recv, rest, rt); r != nil {
